@@ -519,7 +519,9 @@ impl ArchiveFooter {
         let len = u64::from(src.read_u32::<LittleEndian>()?);
 
         // Prepare for deserialization
-        src.seek(SeekFrom::Start(pos - len))?;
+        // The footer cannot be longer than what precedes its length
+        let start = pos.checked_sub(len).ok_or(Error::DeserializationError)?;
+        src.seek(SeekFrom::Start(start))?;
 
         // Read files_info
         let files_info: HashMap<String, FileInfo> = match bincode::options()
